@@ -119,6 +119,10 @@ auto('C16', 'exploration',
      'Hypothesis grammar programs decorated with a trivia strategy (comments in every position, continuations, blank runs, odd spacing, trailing commas, redundant parentheses, all string kinds) x formatter configurations (+ mutated corpus files, the repository format test inputs); oracle: independent reference lexer/parser gives the same tree modulo trivia / trailing commas / parentheses and the documented literal rewrites (strings compared by denotation), same comment sequence, format(format(x)) == format(x), --check-only / --check-diff agree with the diff, no non-Meson exception',
      'Trusts harness/reffmt.py + refmeson (differentially self-tested against mparser on the repository build files). Seven recorded findings (one comment loss, one character loss inside a comment, five idempotence families) are classified by hazard predicates on the input text, excluded from the campaign and re-checked by probes.')
 
+auto('C15', 'exploration',
+     'Hypothesis project models (all target kinds, generated sources, subdirs, subproject, project options, tests/benchmarks running a dumper, install rules) -> real meson setup; relational oracle between artefacts: intro-targets.json vs the statements of build.ninja read by an independent Ninja parser (filenames, compile inputs of the target\'s own objects, parameters, all-membership), intro-tests/benchmarks.json vs argv/env/suites observed under real `meson test`, intro-buildoptions.json vs get_option() messages, intro-installed / install_plan vs the tree real `meson install --destdir` creates (overall and per tag), intro-buildsystem_files.json vs the files the generator wrote',
+     'No expected JSON is written by hand: every field is compared with another artefact of the same configuration. Installed build targets are represented by placeholder files (nothing is compiled). Fields without a counterpart (id, defined_in line numbers) are only sanity-checked.')
+
 NOT_YET = 'no check is registered for this property in this revision (see DESIGN.md section 8 for status)'
 
 
